@@ -464,3 +464,70 @@ def record_and_validate(ctx, world, module, cfg, n, shards=8, name=None, timeout
         ctx.samples.append({"recorded_event": json.loads(lines[len(lines) // 2])})
     ctx.engines[name + ":record"] = {"events": len(lines), "validated": validated, "shards": len(parts)}
     return validated
+
+
+def record_and_monitor(ctx, world, module, cfg, runs, keep_prefix, shards=8, name=None, timeout=1200, race=False, record_args=()):
+    """E3 for stateful worlds: the harness records `runs` randomized runs of the real code as one labelled event
+    trace (runs separated by Reset events); TLC validates it against the observer specification `module`.
+    A clause flagged by the monitor becomes a violation whose replay re-executes that run."""
+    name = name or cfg
+    trace = os.path.join(ctx.work, "trace-%s.ndjson" % name)
+    rep = ctx.vh(["record", world, trace, "-n", str(runs)] + list(record_args), race=race)
+    lines = open(trace).read().splitlines()
+    if not lines:
+        raise Infra("recorder produced no events")
+    # split into runs
+    runs_l, curr = [], []
+    for ln in lines:
+        if '"k":"Reset"' in ln and curr:
+            runs_l.append(curr)
+            curr = []
+        curr.append(ln)
+    runs_l.append(curr)
+    shards = max(1, min(shards, len(runs_l)))
+    per = (len(runs_l) + shards - 1) // shards
+    import concurrent.futures as cf
+    parts = []
+    for i in range(shards):
+        chunk = [ln for r in runs_l[i * per:(i + 1) * per] for ln in r]
+        if not chunk:
+            continue
+        p = os.path.join(ctx.work, "trace-%s-%d.ndjson" % (name, i))
+        open(p, "w").write("\n".join(chunk) + "\n")
+        parts.append((i, p, chunk))
+
+    def run(part):
+        i, p, chunk = part
+        return ctx.tlc(module, cfg, workers=1, files={"trace.ndjson": p}, name="%s#%d" % (name, i), timeout=timeout, xss="256m")
+
+    with cf.ThreadPoolExecutor(max_workers=len(parts)) as ex:
+        results = list(ex.map(run, parts))
+    accepted = 0
+    for (i, p, chunk), r in zip(parts, results):
+        done = [o for o in read_tlc_json(r.outfile) if o.get("k") == "done"]
+        if not done or done[-1]["in"]["n"] != len(chunk):
+            raise Infra("trace shard %d of %s was not consumed completely by the monitor: an event has no matching action\n%s" % (i, name, r.tail[-1500:]))
+        badruns = set()
+        for (l, clause) in done[-1]["in"].get("bad", []):
+            # find the run this event belongs to
+            j = l - 1
+            while j > 0 and '"k":"Reset"' not in chunk[j]:
+                j -= 1
+            reset = json.loads(chunk[j])["in"]
+            badruns.add((reset.get("seed"), reset.get("run")))
+            if not clause.startswith(keep_prefix):
+                continue
+            ev = json.loads(chunk[l - 1])
+            ctx.violations.append({"sig": "monitor:" + re.sub(r"[^a-z0-9]+", "-", clause.lower())[:60],
+                                   "what": "%s (event %s in run seed=%s run=%s)" % (clause, json.dumps(ev)[:300], reset.get("seed"), reset.get("run")),
+                                   "case": {"w": world, "k": "run", "in": {"seed": reset.get("seed"), "run": reset.get("run"),
+                                                                            "forked": reset.get("forked", False), "big": ctx.tier == "thorough"}}})
+        nruns = sum(1 for ln in chunk if '"k":"Reset"' in ln)
+        accepted += nruns - len(badruns)
+    ctx.traces += accepted
+    ctx.evaluations += len(lines)
+    ctx.nontrivial += len(runs_l)
+    if len(ctx.samples) < 12:
+        ctx.samples.append({"recorded_events": [json.loads(x) for x in lines[1:6]]})
+    ctx.engines[name + ":record"] = {"runs": len(runs_l), "events": len(lines), "accepted_runs": accepted, "shards": len(parts)}
+    return accepted
